@@ -80,6 +80,24 @@ Proof.
   all: between_tac f.
 Qed.
 
+(* the sampled ranges stay ranges: goals  lo(f) <= hi(f)  with lo, hi affine in f under max / min, premises
+   og_lo <= og_hi, 0 <= f <= 1 and the constructor domain: non-linear (products og * f), closed by nra *)
+Lemma leaf_ordered_scaled : forall l f, 0 <= f -> f <= 1 -> leaf_wf l -> leaf_dom l -> leaf_ordered (leaf_scale l f).
+Proof.
+  intros l f Hf Hf1 W D. destruct l; destruct_states; to_arith.
+  all: repeat match goal with H : _ /\ _ |- _ => destruct H end.
+  all: repeat match goal with |- _ /\ _ => split end; try exact I.
+  all: elim_minmax; nra.
+Qed.
+
+Lemma leaf_ordered_constructed : forall l, leaf_constructed l -> leaf_dom l -> leaf_ordered l.
+Proof.
+  intros l C D. destruct l; destruct_states; to_arith.
+  all: repeat match goal with H : _ /\ _ |- _ => destruct H end.
+  all: repeat match goal with |- _ /\ _ => split end; try exact I.
+  all: lra.
+Qed.
+
 (* induction over trees with the hypothesis for every member of a composition *)
 Lemma tree_ind' : forall (P : tree -> Prop),
   (forall l, P (Leaf l)) -> P Opaque -> P Foreign ->
@@ -135,6 +153,31 @@ Proof.
   - induction ts as [|c r IHr]; simpl; [exact I|].
     inversion IH; subst. apply all3_app; [assumption | apply IHr; assumption].
 Qed.
+
+Lemma tree_ordered_scaled : forall t f, 0 <= f -> f <= 1 -> tree_wf t -> tree_dom t -> tree_ordered (tree_scale t f).
+Proof.
+  intros t f Hf Hf1. induction t as [l| | |ts IH] using tree_ind'; simpl; intros W D; try exact I.
+  - apply leaf_ordered_scaled; assumption.
+  - induction ts as [|c r IHr]; simpl; [exact I|].
+    inversion IH; subst. destruct W as [W1 W2]. destruct D as [D1 D2]. split.
+    + apply H1; assumption.
+    + apply IHr; assumption.
+Qed.
+
+Lemma tree_ordered_constructed : forall t, tree_constructed t -> tree_dom t -> tree_ordered t.
+Proof.
+  intros t. induction t as [l| | |ts IH] using tree_ind'; simpl; intros C D; try exact I.
+  - apply leaf_ordered_constructed; assumption.
+  - induction ts as [|c r IHr]; simpl; [exact I|].
+    inversion IH; subst. destruct C as [C1 C2]. destruct D as [D1 D2]. split.
+    + apply H1; assumption.
+    + apply IHr; assumption.
+Qed.
+
+(* after any history of scalings the ranges are ordered (only the last factor matters) *)
+Lemma tree_ordered_after : forall fs t f, 0 <= f -> f <= 1 -> tree_wf t -> tree_dom t ->
+  tree_ordered (fold_left tree_scale (fs ++ [f]) t).
+Proof. intros fs t f Hf Hf1 W D. rewrite tree_seq_last_wins. apply tree_ordered_scaled; assumption. Qed.
 
 (* after any history of scalings, factor 1 restores the constructed parameters *)
 Lemma tree_one_restores_after : forall fs t, tree_wf t -> tree_constructed t ->
@@ -199,6 +242,31 @@ Proof.
     assert (s / B * W + W <= s' / B * W) by nia.
     assert ((s / B * W + r) * B + B <= (s' / B * W + r) * B) by nia.
     lia.
+Qed.
+
+(* ---- several DataLoader iterators (one per epoch) ----
+   torch deals the bpe batches of every iterator round-robin starting at worker 0 again (observed by the real-loader
+   multi_iter cases of the harness).  PERSISTENT workers keep their sample counter: the worker that gets batch k of
+   iterator e (both 0-based) has seen e * (bpe / W) + k / W full batches before when W divides bpe, and the index it
+   computes is the global batch e * bpe + k. *)
+Lemma persistent_aligned : forall W B bpe e k j nb inner,
+  0 < W -> 0 < B -> bpe mod W = 0 -> 0 <= e -> 0 <= k < bpe -> 0 <= j < B ->
+  batch_idx (mk_wstate (k mod W) W B nb ((e * (bpe / W) + k / W) * B + j) inner) = e * bpe + k.
+Proof.
+  intros W B bpe e k j nb inner HW HB Hd He Hk Hj. unfold batch_idx. simpl.
+  rewrite div_mul_add by lia.
+  pose proof (Z.div_mod bpe W ltac:(lia)) as D1. rewrite Hd in D1.
+  pose proof (Z.div_mod k W ltac:(lia)) as D2.
+  nia.
+Qed.
+
+(* workers re-created for every iterator start from sample_counter = 0: the index computed for batch k of iterator e
+   is k whatever e - the schedule restarts (the recorded finding fixes/C15_multi_iterator_epochs.txt) *)
+Lemma fresh_workers_restart : forall W B k j nb inner, 0 < W -> 0 < B -> 0 <= k -> 0 <= j < B ->
+  batch_idx (mk_wstate (k mod W) W B nb ((k / W) * B + j) inner) = k.
+Proof.
+  intros W B k j nb inner HW HB Hk Hj. unfold batch_idx. simpl. rewrite div_mul_add by lia.
+  pose proof (Z.div_mod k W ltac:(lia)). lia.
 Qed.
 
 (* ---- the model: the s-th call of a worker uses its sample counter s ---- *)
